@@ -5,5 +5,5 @@ open UtilModel
 
 def main (args : List String) : IO UInt32 :=
   driverMain [
-    mkEntry "promise" Promise.model Promise.Obs.parse []
+    mkEntry "promise" Promise.model Promise.Obs.parse [] (cap := 3000)
   ] args
